@@ -51,4 +51,4 @@ class get_opcode:
                 and not check_minimal_push(decode_data(script, pc), op))
 
     raises = [(ScriptError, _nonminimal, True)]
-    canaries = [("pycoin.vm.ScriptStreamer:make_sized_handler.<locals>.constant_size_opcode_handler", "len(data) < size", "len(data) < size - 1")]
+    canaries = [(lambda: BitcoinScriptStreamer.decoder[5], "len(data) < size", "len(data) < size - 1")]
